@@ -93,6 +93,11 @@ class KeepAlivePdu(AbstractFileDirectiveBase):
         keep_alive_pdu = cls.__empty()
         keep_alive_pdu.pdu_file_directive = FileDirectivePduBase.unpack(raw_packet=data)
         keep_alive_pdu.pdu_file_directive.verify_length_and_checksum(data)
+        # Only the octets of this PDU without the CRC16 trailer hold parameters.
+        end_of_params = keep_alive_pdu.pdu_file_directive.packet_len
+        if keep_alive_pdu.pdu_file_directive.pdu_conf.crc_flag == CrcFlag.WITH_CRC:
+            end_of_params -= 2
+        data = data[:end_of_params]
         current_idx = keep_alive_pdu.pdu_file_directive.header_len
         if not keep_alive_pdu.pdu_file_directive.pdu_header.large_file_flag_set:
             struct_arg_tuple = ("!I", 4)
